@@ -11,6 +11,7 @@ import PV.Model.CFG
 import PV.Model.Summary
 import PV.Model.PySem
 import PV.Proofs.CFGSound3
+import PV.Proofs.CFGRangesElif
 import PV.Model.StructDead
 import PV.Model.Decisions
 import PV.Model.Registry
@@ -290,7 +291,8 @@ def runLive (t : Array String) : String :=
   let o := r.outs
   let b (x : Bool) : String := if x then "1" else "0"
   -- last two fields: is the body inside the fragment of the mirror-soundness theorems (C01_mirror_sound_notry / C01_mirror_sound)?
-  s!"{natsSorted r.lines.eraseDups}|{b o.normal}{b o.ret}{b o.brk}{b o.cont}{b o.exc}|{b (PV.CFGSound.okL false body)}|{b (PV.CFGSound.okL3 false false body)}"
+  -- + the hypotheses of the RANGE-level theorem C01_ranges_sound_all: okRE (fragment) and WFLoc (source spans: one statement per line, nested spans)
+  s!"{natsSorted r.lines.eraseDups}|{b o.normal}{b o.ret}{b o.brk}{b o.cont}{b o.exc}|{b (PV.CFGSound.okL false body)}|{b (PV.CFGSound.okL3 false false body)}|{b (PV.CFGSound.okRE body)}|{b (PV.CFGSound.wfL 1 body)}"
 
 /-- `sdead <f|c|m> s e <list>` → the lines that must be reported: start lines of all statements inside structurally dead statements (specification of C02) -/
 def runSDead (t : Array String) : String :=
